@@ -5,6 +5,8 @@ StepAct ==
   \/ Is("dgram")     /\ Dgram(Ev.side, Ev.src, Ev.anyPort, Ev.firstSeen, Ev.delivered, Ev.stats)
   \/ Is("keepalive") /\ KeepAlive(Ev.src, Ev.expired)
   \/ Is("steal")     /\ Steal(Ev.how, Ev.status, Ev.same)
+  \* the harness itself was late with the real peer's signs of life (a stalled machine): no claim
+  \/ Is("keepalive_void") /\ UNCHANGED bndvars
   \/ Is("end")       /\ UNCHANGED bndvars
 Next == TraceNext(ResetAct, StepAct, UNCHANGED bndvars)
 Init == TraceInit /\ BInit
